@@ -28,7 +28,8 @@ def check(run, model, tier):
     run.rule('TOKEN.guarded', 'blocking token puts guarded by not-full or tokens<items')
     run.rule('BOUND.tokens', 'token capacity == deque capacity')
     run.rule('LOOPS.post-path', 'no other loop and no blocking call reachable from an untimed post')
-    queues.check_locking_deque(run, model, 'TOKEN.guarded', 'TOKEN.guarded', 'BOUND.tokens', rule_monotone='TOKEN.monotone', rule_lock='TOKEN.guarded')
+    run.rule('TOKEN.repair', 'after every add the poster re-tests tokens < items: quiescence means the consumer waits on an EMPTY queue, so no item may be left without a token')
+    queues.check_locking_deque(run, model, 'TOKEN.guarded', 'TOKEN.guarded', 'BOUND.tokens', rule_monotone='TOKEN.monotone', rule_repair='TOKEN.repair', rule_lock='TOKEN.guarded')
     cg = callgraph(model)
     ao = model.cls('ActiveObject')
     hq = model.cls('HsmWithQueues')
